@@ -90,6 +90,19 @@ func (c *Check) expiredBatchRules(prefix string, which map[string]bool) {
 		if iDeq9 < 0 || iDeq11 < 0 {
 			add("dequeue", "the expiry queue entry is not removed (queue and pointer)", pa)
 		}
+		// a removed context is not written back later on the path (it would survive its own completion)
+		if iDelCtx >= 0 {
+			for i, ev := range pa.Events {
+				if i <= iDelCtx || ev.Kind != EvCall {
+					continue
+				}
+				for _, e := range c.P.effectsOfEvent(f, ev) {
+					if e.Kind == "store" && e.Op == "Set" && e.Family == "0x08" {
+						add("continuation", "the context is stored again after it was removed", pa)
+					}
+				}
+			}
+		}
 		if iEnq >= 0 && iDeq9 > iEnq {
 			add("dequeue-before-enqueue", "the next batch is queued before the expiry entry is removed", pa)
 		}
